@@ -12,7 +12,7 @@ with open(src) as f, open(dst, "w") as o:
         if t["run"] != cur:
             cur = t["run"]
             o.write(json.dumps({"ev": "Reset", "run": cur}) + "\n"); n += 1
-        for e in t["evs"]:
+        for e in (t.get("evs") or []):
             e.pop("msg", None)
             o.write(json.dumps(e, separators=(",", ":")) + "\n"); n += 1
 print(n)
